@@ -77,6 +77,21 @@ def failing_program():
     return ("failing-invocations", m)
 
 
+def nested_global_program():
+    """helpers that reach a global only through a further call (f -> outer -> inner reads and writes g): the same invocation with the same arguments
+    after the global was changed -- by the host or by an earlier invocation -- must see the new value and perform its store again"""
+    inner_r = Func("inner_r", [Arg("int", "x")], "int", Block([Ret(B("+", B("*", V("scale"), V("x")), V("bias")))]))
+    inner_w = Func("inner_w", [Arg("int", "x")], "int", Block([ES(A(V("bias"), B("+", V("bias"), V("x")))), ES(A(V("count"), I(1), "+=")), Ret(V("bias"))]))
+    outer_r = Func("outer_r", [Arg("int", "x")], "int", Block([Decl("int", "t", Call("inner_r", [B("+", V("x"), I(1))])), Ret(B("-", V("t"), I(1)))]))
+    outer_w = Func("outer_w", [Arg("int", "x")], "int", Block([Ret(B("+", Call("inner_w", [V("x")]), I(100)))]))
+    pure = Func("twice", [Arg("int", "x")], "int", Block([Ret(B("*", V("x"), I(2)))]))
+    m = Module([Global("int", "scale"), Global("int", "bias"), Global("int", "count"), inner_r, inner_w, outer_r, outer_w, pure,
+                Func("get", [Arg("int", "x")], "int", Block([Ret(B("+", Call("outer_r", [V("x")]), Call("twice", [V("x")])))]), export=True),
+                Func("bump", [Arg("int", "x")], "int", Block([Ret(B("+", Call("outer_w", [V("x")]), Call("twice", [V("x")])))]), export=True),
+                Func("both", [Arg("int", "x")], "int", Block([Decl("int", "a", Call("outer_r", [V("x")])), Decl("int", "b", Call("outer_w", [V("x")])), Ret(B("+", B("*", V("a"), I(1000)), B("+", V("b"), Call("outer_r", [V("x")]))))]), export=True)])
+    return ("nested-global-access", m)
+
+
 def run(ctx):
     ctx.static_obligations(STATIC)
     repo = ctx.sync_repo(1)[0]
@@ -139,6 +154,16 @@ def run(ctx):
                 calls.append({"vm": vm, "fn": "work", "args": {"n": rng.choice([3, 30, 60]), "d": rng.choice([1, 2, 4])}, "globals": {}, "read_globals": ["total"]})
         calls.append({"vm": 0, "fn": "work", "args": {"n": 60, "d": 4}, "globals": {}, "read_globals": ["total"]})
         calls.append({"vm": 1, "fn": "work", "args": {"n": 60, "d": 4}, "globals": {}, "read_globals": ["total"]})
+        cases.append((name, m, calls))
+    name, m = nested_global_program()
+    for rep in range(3 if ctx.tier == "quick" else 12):
+        calls = [{"vm": v, "fn": "get", "args": {"x": 3}, "globals": {"scale": 2 + v, "bias": 1, "count": 0}, "read_globals": ["scale", "bias", "count"]} for v in (0, 1)]
+        for _ in range(rng.randint(*hist_len)):
+            vm = rng.choice([0, 0, 1])
+            c = {"vm": vm, "fn": rng.choice(["get", "get", "bump", "both"]), "args": {"x": rng.choice([3, 3, 3, 1, 4])}, "globals": {}, "read_globals": ["scale", "bias", "count"]}
+            if rng.random() < 0.35:
+                c["globals"] = {rng.choice(["scale", "bias"]): rng.randrange(-3, 8)}
+            calls.append(c)
         cases.append((name, m, calls))
     name, m = recursive_program()
     for rep in range(4 if ctx.tier == "quick" else 16):
